@@ -8,6 +8,8 @@
 (*   "other"  : a genuine block with ANOTHER number                         *)
 (*   "forged" : block n with a payload that does not match its certificate  *)
 (*   "none"   : an empty response                                           *)
+(*   "silent" : no response at all, the connection stays open - the node's  *)
+(*              per-call timeout (get_block_timeout) must end the wait      *)
 (* Only a "right" answer may change the node's store; any other answer ends *)
 (* that connection (the request goes back to the queue). Later an honest    *)
 (* peer that has everything connects. The node                              *)
@@ -18,7 +20,7 @@
 (***************************************************************************)
 EXTENDS Naturals, Sequences, FiniteSets
 CONSTANTS NBlocks                       \* blocks 0..NBlocks-1 are missing
-Answers == {"right", "other", "forged", "none"}
+Answers == {"right", "other", "forged", "none", "silent"}
 VARIABLES have,        \* set of numbers stored by the node (always genuine content in this spec)
           evil,        \* "up" | "gone"
           ann,         \* highest number the scripted peer announced (it announces 0..ann)
